@@ -11,6 +11,6 @@ spec = importlib.util.spec_from_loader("chk", loader=None)
 src = open("check").read()
 g = {"__name__": "chk", "__file__": os.path.abspath("check")}
 exec(compile(src, "check", "exec"), g)
-for cfg in ("A", "B", "B2"):
+for cfg in ("A", "B", "B2", "E"):
     g["build"](cfg)
 PY
